@@ -348,6 +348,9 @@ func parseTextWebVTT(i string, sa *StyleAttributes) (o Line) {
 	// Create tokenizer
 	tr := html.NewTokenizer(strings.NewReader(i))
 
+	// Inline timestamp whose text has not been met yet (tags may stand between them)
+	var pending time.Duration
+
 	// Loop
 	for {
 		// Get next tag
@@ -409,32 +412,50 @@ func parseTextWebVTT(i string, sa *StyleAttributes) (o Line) {
 			}
 
 			// Append items
-			o.Items = append(o.Items, parseTextWebVTTTextToken(styleAttributes, string(tr.Raw()))...)
+			var items []LineItem
+			items, pending = parseTextWebVTTTextToken(styleAttributes, string(tr.Raw()), pending)
+			o.Items = append(o.Items, items...)
 		}
 	}
 	return
 }
 
-func parseTextWebVTTTextToken(sa *StyleAttributes, line string) (ret []LineItem) {
+func parseTextWebVTTTextToken(sa *StyleAttributes, line string, pending time.Duration) (ret []LineItem, next time.Duration) {
 	// split the line by inline timestamps
 	indexes := webVTTRegexpInlineTimestamp.FindAllStringSubmatchIndex(line, -1)
 
+	// a timestamp applies to the first text that follows it
+	next = pending
+
 	if len(indexes) == 0 {
-		return []LineItem{{
+		li := LineItem{
 			InlineStyle: sa,
 			Text:        unescapeHTML(line),
-		}}
+		}
+		if strings.TrimSpace(line) != "" {
+			li.StartAt = next
+			next = 0
+		}
+		return []LineItem{li}, next
 	}
 
 	// get the text before the first timestamp
 	if s := line[:indexes[0][0]]; strings.TrimSpace(s) != "" {
 		ret = append(ret, LineItem{
 			InlineStyle: sa,
+			StartAt:     next,
 			Text:        unescapeHTML(s),
 		})
 	}
 
 	for i, match := range indexes {
+		// Parse timestamp
+		t, err := parseDurationWebVTT(line[match[2]:match[3]])
+		if err != nil {
+			log.Printf("astisub: parsing webvtt duration %s failed, ignoring: %v", line[match[2]:match[3]], err)
+		}
+		next = t
+
 		// get the text between the timestamps
 		endIndex := len(line)
 		if i+1 < len(indexes) {
@@ -445,17 +466,12 @@ func parseTextWebVTTTextToken(sa *StyleAttributes, line string) (ret []LineItem)
 			continue
 		}
 
-		// Parse timestamp
-		t, err := parseDurationWebVTT(line[match[2]:match[3]])
-		if err != nil {
-			log.Printf("astisub: parsing webvtt duration %s failed, ignoring: %v", line[match[2]:match[3]], err)
-		}
-
 		ret = append(ret, LineItem{
 			InlineStyle: sa,
 			StartAt:     t,
 			Text:        unescapeHTML(s),
 		})
+		next = 0
 	}
 
 	return
